@@ -448,6 +448,16 @@ impl World {
                     sp.content_type = Some(ct);
                     sp.user_props = up;
                     sp.retain = Some(true);
+                    // ... and the remaining PUBLISH options: Payload Format Indicator (1 for the plain payloads of even requests, an
+                    // explicit 0 otherwise), Message Expiry Interval, Response Topic or Correlation Data
+                    let plain = sp.payload.as_ref().map_or(true, |p| p.len() < 16 && p.is_ascii());
+                    sp.pfi = Some(plain && idx % 2 == 0);
+                    sp.mei = Some(10 * idx as u32 + 1);
+                    if (idx / 3) % 2 == 0 {
+                        sp.response_topic = Some(format!("r/\u{e9}/{idx}"));
+                    } else {
+                        sp.correlation = Some(vec![0, 0xff, idx as u8, 0x80]);
+                    }
                 }
                 OpSpec::Publish(sp)
             }
@@ -543,6 +553,18 @@ impl World {
             let (ct, up) = Self::rich_options(i);
             let mut v = vec![Prop::str(3, &ct)];
             v.extend(up.iter().map(|(k, val)| Prop::pair(k, val)));
+            let plain = {
+                let p = self.plain_payload(i);
+                p.len() < 16 && p.is_ascii()
+            };
+            v.push(Prop::byte(1, (plain && i % 2 == 0) as u8));
+            v.push(Prop::u32(2, 10 * i as u32 + 1));
+            if (i / 3) % 2 == 0 {
+                v.push(Prop::str(8, &format!("r/\u{e9}/{i}")));
+            } else {
+                v.push(Prop::bin(9, &[0, 0xff, i as u8, 0x80]));
+            }
+            v.sort_by_key(|x| (x.id != 3, format!("{:?}", x)));
             v
         } else {
             Vec::new()
